@@ -184,17 +184,21 @@ def main():
         sys.exit(2)
     okt, logt = build_translators()
     okc, logc = build_coq()
-    okd, logd = (False, 'coq build failed') if not okc else build_driver()
+    # the build keeps going past failures (make -k): a broken table theorem of one property must not
+    # take the other properties' proofs down with it; each property is judged on its own props file
+    ext_vo = os.path.join(COQ, 'extraction', 'Extract.vo')
+    ext_ok = os.path.exists(ext_vo) and os.path.getmtime(ext_vo) >= os.path.getmtime(os.path.join(COQ, 'theories', 'Model.v'))
+    okd, logd = build_driver() if ext_ok else (False, 'extraction not built')
     proof_problems = []
-    if not okt:
+    if not okt and pid in ('C13', 'C15', 'C20', 'C17'):
         proof_problems.append('translator failed: ' + logt[-1200:])
-    if not okc:
-        m = re.search(r'File "([^"]+)", line (\d+)', logc)
-        proof_problems.append('coq build failed%s: %s' % (' at %s:%s' % m.groups() if m else '', logc[-1500:]))
     hyg = hygiene()
     if hyg:
         proof_problems.append('forbidden constructs: ' + '; '.join(hyg[:10]))
-    n_thm, n_ok, tp, names = check_theorems(pid) if okc else (0, 0, [], [])
+    n_thm, n_ok, tp, names = check_theorems(pid)
+    if tp and not okc:
+        m = re.search(r'File "([^"]+)", line (\d+)', logc)
+        tp = ['coq build failed%s' % (' at %s:%s' % m.groups() if m else '')] + tp
     proof_problems += tp
     cone = count_cone(pid)
 
